@@ -216,6 +216,7 @@ type c06Env struct {
 	initWin      int64 // acknowledged SETTINGS_INITIAL_WINDOW_SIZE
 	connWin      int64 // the client's connection-level send window
 	maxConc      int64 // acknowledged MAX_CONCURRENT_STREAMS (-1 = none)
+	maxFrame     int64 // acknowledged MAX_FRAME_SIZE
 	cInitWin     int64 // advertised by the client
 	cConnWin     int64 // the peer's connection-level send window towards the client
 	cSent        int64 // flow-controlled bytes the peer has sent (data + padding)
@@ -263,7 +264,7 @@ func c06NewEnv(t testing.TB, cfg c06Cfg) (*c06Env, error) {
 		return nil, a.err
 	}
 	e := &c06Env{t: t, cfg: cfg, srv: a.c, frames: make(chan c06Frame, 4096), streams: map[uint32]*c06Stream{},
-		initWin: 65535, connWin: 65535, maxConc: -1, cInitWin: 65535, cConnWin: 65535}
+		initWin: 65535, connWin: 65535, maxConc: -1, maxFrame: 16384, cInitWin: 65535, cConnWin: 65535}
 	e.henc = hpack.NewEncoder(&e.hbuf)
 	e.fr = xhttp2.NewFramer(e.srv, e.srv)
 	e.fr.AllowIllegalReads = true
@@ -409,6 +410,8 @@ func (e *c06Env) handle(f c06Frame) {
 						e.initWin = int64(s.Val)
 					case xhttp2.SettingMaxConcurrentStreams:
 						e.maxConc = int64(s.Val)
+					case xhttp2.SettingMaxFrameSize:
+						e.maxFrame = int64(s.Val)
 					}
 				}
 			}
@@ -681,11 +684,10 @@ func (e *c06Env) startRoundTrip(bodyLen int, known bool, padLen int) *c06Stream 
 func (e *c06Env) register(st *c06Stream, cs *clientStream) {
 	st.cs = cs
 	if st.body != nil {
-		// streamf runs between addStreamLocked and the header write; nothing the script does can
-		// change cc.maxFrameSize before writeRequestBody reads it (the script is waiting for us)
-		e.cc.mu.Lock()
-		mf := int(e.cc.maxFrameSize)
-		e.cc.mu.Unlock()
+		// writeRequestBody sizes its scratch buffer from the peer's MAX_FRAME_SIZE right after the
+		// header write; by the peer's books that is the last acknowledged value (the script is
+		// quiescent around an open, so nothing is in flight)
+		mf := int(e.maxFrame)
 		st.body.mu.Lock()
 		st.body.limit = cs.frameScratchBufferLen(mf)
 		st.body.mu.Unlock()
@@ -702,27 +704,38 @@ func (st *c06Stream) openToken() string {
 	return fmt.Sprintf("o:%d:%d:%s", st.hdrLen, st.total, c06B(st.known))
 }
 
+// slotLimit is MAX_CONCURRENT_STREAMS as the client must see it by the peer's own books: the
+// value of the last acknowledged SETTINGS frame that carried one, else the client's defaults
+// (100 before the first SETTINGS frame, 1000 after a first SETTINGS frame without one).
+func (e *c06Env) slotLimit() int64 {
+	if e.maxConc >= 0 {
+		return e.maxConc
+	}
+	if e.ackSeen > 0 {
+		return 1000
+	}
+	return 100
+}
+
 // open returns the op token ("o:<hdrLen>:<bodyLen>:<known>").
 func (e *c06Env) open(bodyLen int, known bool, padLen int) string {
 	st := e.startRoundTrip(bodyLen, known, padLen)
 	e.opened = append(e.opened, st)
-	deadline := time.Now().Add(c06Wait)
-	for st.cs == nil && !st.gotRes {
-		select {
-		case cs := <-st.stCh:
-			e.register(st, cs)
-		case r := <-st.respCh:
-			st.gotRes, st.res = true, r.res // refused: errClientConnUnusable
-		case <-time.After(time.Millisecond):
-			e.cc.mu.Lock()
-			p := e.cc.pendingRequests
-			e.cc.mu.Unlock()
-			if p > 0 {
-				e.pending = st
-			}
-		}
-		if e.pending != nil || time.Now().After(deadline) {
-			break
+	// strict mode at the stream limit: the RoundTrip has to wait for a slot. That is what the
+	// peer's books say must happen; a client that goes ahead anyway shows up at once.
+	mustWait := e.cfg.strict && int64(e.liveCount()) >= e.slotLimit() && !e.goAwaySent && !e.noReuse && !e.closed
+	patience := c06Wait
+	if mustWait {
+		patience = 5 * time.Millisecond
+	}
+	select {
+	case cs := <-st.stCh:
+		e.register(st, cs)
+	case r := <-st.respCh:
+		st.gotRes, st.res = true, r.res // refused: errClientConnUnusable
+	case <-time.After(patience):
+		if mustWait {
+			e.pending = st
 		}
 	}
 	if st.cs != nil {
@@ -750,11 +763,10 @@ func (e *c06Env) resumePending(bool) {
 	}
 	e.cc.mu.Lock()
 	e.cc.cond.Broadcast()
-	// pendingRequests == 0: it has already left the wait loop (an earlier wake-up inside the
-	// operation) even if none of its frames has been seen yet
-	leaves := e.cc.pendingRequests == 0 || e.cc.closed || !e.cc.canTakeNewRequestLocked() ||
-		int64(len(e.cc.streams)) < int64(e.cc.maxConcurrentStreams)
 	e.cc.mu.Unlock()
+	// by the peer's books: a slot is free (whether the waiter has already taken it or is about
+	// to), or the connection can take no new request any more (the client's own public answer)
+	leaves := int64(e.liveCount()) < e.slotLimit() || !e.cc.CanTakeNewRequest()
 	if !leaves && !e.closed {
 		return
 	}
